@@ -74,25 +74,26 @@ RED = {"sum": torch.sum, "mean": torch.mean, "amax": torch.amax, "amin": torch.a
 def mk_trainer(case):
     hp, name, mode = case["hp"], case["trainer"], case["mode"]
     red = RED[case.get("reduction")]
+    tol = float(case.get("tol", 0.0))
     if name in ("STDP", "StableSTDP"):
         cls = learn.STDP if name == "STDP" else StableSTDP
         return cls(hp["lr_post"], hp["lr_pre"], hp["tc_post"], hp["tc_pre"], delayed=case["delayed"], trace_mode=mode,
-                   batch_reduction=red)
+                   batch_reduction=red, interp_tolerance=tol)
     if name in ("TripletSTDP", "StableTripletSTDP"):
         cls = learn.TripletSTDP if name == "TripletSTDP" else StableTripletSTDP
         return cls(hp["lr_post"], hp["lr_post_triplet"], hp["lr_pre"], hp["lr_pre_triplet"], hp["tc_post"],
                    hp["tc_post_slow"], hp["tc_pre"], hp["tc_pre_slow"], delayed=case["delayed"], trace_mode=mode,
-                   batch_reduction=red, inplace=bool(case.get("inplace", False)))
+                   batch_reduction=red, inplace=bool(case.get("inplace", False)), interp_tolerance=tol)
     if name == "MSTDP":
         return learn.MSTDP(hp["lr_post"], hp["lr_pre"], hp["tc_post"], hp["tc_pre"], delayed=case["delayed"],
-                           trace_mode=mode, batch_reduction=red)
+                           trace_mode=mode, batch_reduction=red, interp_tolerance=tol)
     if name == "MSTDPET":
         return learn.MSTDPET(hp["lr_post"], hp["lr_pre"], hp["tc_post"], hp["tc_pre"], hp["tc_elig"], trace_mode=mode,
-                             batch_reduction=red)
+                             batch_reduction=red, interp_tolerance=tol)
     raise ValueError(name)
 
 
-def build(case):
+def build_layer(case):
     dt, B, kmax = case["dt"], case["B"], case.get("kmax")
     delay = None if kmax is None else kmax * dt
     syn = neural.DeltaCurrent.partialconstructor(1.0)
@@ -116,10 +117,85 @@ def build(case):
     neuron = ScriptedNeuron(tuple(conn.outshape), dt, batch_size=B)
     layer = neural.Serial(conn, neuron)
     conn.updater = conn.defaultupdater()
+    KEEP.append(layer)
+    return layer, conn, neuron
+
+
+def build(case):
+    layer, conn, neuron = build_layer(case)
     trainer = mk_trainer(case)
     trainer.register_cell("c", layer.cell)
-    KEEP.extend([layer, trainer])
+    KEEP.append(trainer)
     return layer, conn, neuron, trainer
+
+
+# register_cell keyword names of the hyperparameters (harness name -> keyword), per trainer family
+KW_PAIR = {"lr_post": "lr_post", "lr_pre": "lr_pre", "tc_post": "tc_post", "tc_pre": "tc_pre"}
+KW_TRIPLET = {"lr_post": "lr_post_pair", "lr_pre": "lr_pre_pair", "lr_post_triplet": "lr_post_triplet",
+              "lr_pre_triplet": "lr_pre_triplet", "tc_post": "tc_post_fast", "tc_pre": "tc_pre_fast",
+              "tc_post_slow": "tc_post_slow", "tc_pre_slow": "tc_pre_slow"}
+
+
+def override_kwargs(trainer_name, ov):
+    """per-cell overrides {"hp": {...}, "mode", "delayed", "reduction", "tol", "inplace"} -> register_cell keywords"""
+    names = KW_TRIPLET if trainer_name in ("TripletSTDP", "StableTripletSTDP") else dict(KW_PAIR)
+    if trainer_name == "MSTDPET":
+        names = dict(KW_PAIR, tc_elig="tc_eligibility")
+    kw = {}
+    for k, v in ov.get("hp", {}).items():
+        if k in names:
+            kw[names[k]] = v
+    if "mode" in ov:
+        kw["trace_mode"] = ov["mode"]
+    if "delayed" in ov and trainer_name != "MSTDPET":
+        kw["delayed"] = ov["delayed"]
+    if "reduction" in ov:
+        kw["batch_reduction"] = RED[ov["reduction"]]
+    if "tol" in ov:
+        kw["interp_tolerance"] = ov["tol"]
+    if "inplace" in ov and trainer_name in ("TripletSTDP", "StableTripletSTDP"):
+        kw["inplace"] = ov["inplace"]
+    return kw
+
+
+def run_group(g):
+    """ONE trainer object (constructor hyperparameters g["defaults"]) driving several cells, each on its own layer and
+    registered with its own keyword overrides (g["cells"][j]["override"], possibly empty); per step every layer runs,
+    then the trainer is called once.  Returns one single-case-shaped result per cell."""
+    trainer = mk_trainer(dict(g["defaults"], trainer=g["trainer"]))
+    KEEP.append(trainer)
+    built = []
+    for j, cc in enumerate(g["cells"]):
+        layer, conn, neuron = build_layer(cc)
+        trainer.register_cell(f"cell{j}", layer.cell, **override_kwargs(g["trainer"], cc.get("override", {})))
+        layer.train()
+        neuron.script = [torch.tensor(p, dtype=torch.bool) for p in cc["post"]]
+        built.append((cc, layer, conn, neuron, conn.weight.detach().clone(), [], []))
+    trainer.train()
+    T = len(g["cells"][0]["pre"])
+    sig = g.get("signal")
+    for t in range(T):
+        for (cc, layer, conn, neuron, w0, steps, synpre) in built:
+            x = torch.tensor(cc["pre"][t], dtype=torch.bool).reshape(cc["B"], *conn.inshape)
+            if cc["conn"] == "conv":
+                synpre.append(conn.like_synaptic(x).to(torch.int64).tolist())
+            layer(x)
+        if sig is None:
+            trainer()
+        else:
+            s = sig[t]
+            s = torch.tensor(s, dtype=torch.float64) if isinstance(s, list) else float(s)
+            trainer(s, g.get("scale", 1.0))
+        for (cc, layer, conn, neuron, w0, steps, synpre) in built:
+            acc = conn.updater.weight
+            steps.append({"pos": flat(acc.pos), "neg": flat(acc.neg)})
+    out = []
+    for (cc, layer, conn, neuron, w0, steps, synpre) in built:
+        wb = conn.weight.detach().clone()
+        conn.update()
+        out.append({"ok": True, "steps": steps, "dw": flat(conn.weight.detach() - wb), "wshape": list(conn.weight.shape),
+                    "w_total": flat(conn.weight.detach() - w0), "synpre": synpre})
+    return {"ok": True, "cells": out}
 
 
 def flat(t):
@@ -166,7 +242,7 @@ def handler(payload):
     out = []
     for c in payload["cases"]:
         try:
-            out.append(run(c))
+            out.append(run_group(c) if c.get("kind") == "group" else run(c))
         except Exception as e:  # noqa
             import traceback
             out.append({"ok": False, "err": exc_code(e), "msg": f"{type(e).__name__}: {e}",
